@@ -4,8 +4,12 @@ import os
 import random
 import traceback
 
+import os_resource_classes as orc
+import os_traits
+
 from harness import corpus, faults, ops
 from harness.app import core
+from harness.model import Model, diff_dumps, load_dump
 
 META = {
     'property_id': 'C17', 'lean_module': 'Placement.Props.C17', 'category': 'proof',
@@ -24,16 +28,90 @@ META = {
 }
 
 KINDS = ('deadlock', 'deadlock_rb', 'dberror', 'duplicate')
-_APP = _INJ = None
+_APP = _INJ = _MODEL = None
 
 
 def _init():
-    global _APP, _INJ
+    global _APP, _INJ, _MODEL
     from harness.sched import SchedApp
     import atexit
     _APP = SchedApp()
     atexit.register(_APP.close)
     _INJ = faults.Injector(_APP)
+    _MODEL = Model()
+
+
+def model_statement_index(events, k):
+    """map the index k of a real SQL statement of the main write transaction of PUT /allocations to the
+    statement index of Model/Fault.lean `setAllocStmts` (deletes per consumer, check, inserts, provider
+    increments, consumer increments, clean-up); None = outside `_set_allocations`"""
+    # the main transaction = the last transaction that deletes allocations
+    starts = [i for i, e in enumerate(events) if e[0] == 'stmt' and e[1] == 'BEGIN']
+    main = None
+    for b in starts:
+        j = b + 1
+        seg = []
+        while j < len(events) and events[j][0] == 'stmt' and events[j][1] != 'BEGIN':
+            seg.append(j)
+            j += 1
+        if any(events[x][1:] == ('DELETE', 'allocations') for x in seg):
+            main = seg
+    if main is None or k not in main:
+        return None
+    idx = 0
+    phase = 'pre'
+    out = {}
+    n_del = n_ins = n_rp = n_cons = 0
+    for x in main:
+        v, t = events[x][1], events[x][2]
+        if phase == 'pre' and (v, t) == ('UPDATE', 'consumers'):
+            out[x] = None
+            continue
+        if (v, t) == ('DELETE', 'allocations'):
+            phase = 'del'
+            out[x] = n_del
+            n_del += 1
+        elif v == 'SELECT' and phase in ('del', 'check') and t in ('resource_classes', 'resource_providers'):
+            phase = 'check'
+            out[x] = ('check',)
+        elif (v, t) == ('INSERT', 'allocations'):
+            phase = 'ins'
+            out[x] = ('ins', n_ins)
+            n_ins += 1
+        elif (v, t) == ('UPDATE', 'resource_providers'):
+            out[x] = ('rp', n_rp)
+            n_rp += 1
+        elif (v, t) == ('UPDATE', 'consumers'):
+            out[x] = ('cons', n_cons)
+            n_cons += 1
+        elif t == 'consumers' and v in ('SELECT', 'DELETE'):
+            # the first SELECT/DELETE pair is `_set_allocations`' own clean-up; a later pair belongs to the
+            # handler (outside the retried function)
+            seen_cleanup = sum(1 for y in out.values() if y == ('cleanup',))
+            out[x] = ('cleanup',) if seen_cleanup < 2 and phase != 'after' else None
+            if v == 'DELETE':
+                phase = 'after'
+        else:
+            out[x] = None
+    r = out.get(k)
+    if r is None:
+        return None
+    if isinstance(r, int):
+        return r
+    base = n_del
+    if r[0] == 'check':
+        return base
+    base += 1
+    if r[0] == 'ins':
+        return base + r[1]
+    base += n_ins
+    if r[0] == 'rp':
+        return base + r[1]
+    base += n_rp
+    if r[0] == 'cons':
+        return base + r[1]
+    base += n_cons
+    return base
 
 
 def wellformed_error(r):
@@ -139,6 +217,27 @@ def case(args):
                     oc = 'post' if same_as_post else ('pre' if same_as_pre else 'other')
                     ok = '%s:%s:%s' % (kind, st if not isinstance(st, int) else st // 100 * 100, oc)
                     out['outcomes'][ok] = out['outcomes'].get(ok, 0) + 1
+                    # tie of Model/Fault.lean to the code: the statement-level retry model predicts the outcome
+                    if op['op'] == 'alloc_put' and r0.status == 204 and op['c']['allocs'] and kind != 'duplicate' and isinstance(st, int):
+                        mk = model_statement_index(events, k)
+                        if mk is not None:
+                            _MODEL.reset(list(orc.STANDARDS), sorted(os_traits.get_traits()),
+                                         _APP.conf.placement.incomplete_consumer_project_id,
+                                         _APP.conf.placement.incomplete_consumer_user_id)
+                            load_dump(_MODEL, pre)
+                            mr = _MODEL.send({'cmd': 'fault_put', 'op': op, 'k': mk, 'kind': kind})
+                            out['model_fault_points'] = out.get('model_fault_points', 0) + 1
+                            if 'error' in mr:
+                                out['violations'].append({'kind': 'correspondence', 'signature': 'fault-model:driver-error', 'detail': mr['error'],
+                                                          'replay': {'type': 'fault', 'op': op, 'fault': kind, 'statement': k}})
+                            elif 'ok' in mr:
+                                dd = diff_dumps(d, _MODEL.dump(), ['rps', 'invs', 'allocs', 'consumers'])
+                                if (st < 300) != mr['ok'] or dd:
+                                    out['violations'].append({'kind': 'correspondence',
+                                                              'signature': 'fault-model:%s:%s' % (kind, 'status' if (st < 300) != mr['ok'] else 'state'),
+                                                              'detail': 'statement %d (model %d) real status %s model ok=%s diff %s' % (k, mk, st, mr['ok'], json.dumps(dd)[:300]),
+                                                              'replay': {'type': 'fault', 'module': 'harness.props.c17', 'start_dump': pre, 'op': op,
+                                                                         'fault': kind, 'statement': k, 'model_statement': mk}})
                     for s, t in vio:
                         out['violations'].append({'kind': 'monitor', 'signature': s, 'detail': t, 'replay': {
                             'type': 'fault', 'module': 'harness.props.c17', 'start_dump': pre, 'op': op, 'fault': kind, 'statement': k,
@@ -231,7 +330,7 @@ def replay(doc):
 
 def run(chk):
     if not getattr(chk, 'no_lean', False):
-        chk.lean_stage(META['lean_module'], exe=False)
+        chk.lean_stage(META['lean_module'], exe=True)
     n = 10 if chk.tier == 'quick' else 100
     ctx = mp.get_context('fork')
     errors = []
@@ -242,6 +341,7 @@ def run(chk):
                 continue
             chk.cov['evaluations'] += res['points']
             chk.count('fault_points', res['points'])
+            chk.count('fault_points_compared_with_lean_fault_model', res.get('model_fault_points', 0))
             chk.count('requests', res['requests'])
             for k, v in res['by_kind'].items():
                 chk.tally('requests_by_kind_status', k, v)
